@@ -1,11 +1,11 @@
 Require Extraction.
 Require Import ExtrOcamlBasic.
-From CSL Require Import Base.Prelude Base.Hex Cbor.Head Cbor.Item Codec.Schema Ledger.Schemas Total.Partial Total.Decoders Total.Judge.
+From CSL Require Import Base.Prelude Base.Hex Cbor.Head Cbor.Item Codec.Schema Ledger.Schemas Total.Partial Total.Decoders Total.Judge Total.Lax.
 Extraction Language OCaml.
 Definition keepN : N := N.add 0 0.
 Definition keepZ : Z := Z.add 0 0.
 Extraction "model_c02.ml" keepN keepZ enc dec wfv wfs hex unhex refined writer_form reward_sort_key is_empty_val
-  item_wf parse_exact judge has_huge consumed wit_array_first wit_empty_enc
+  item_wf parse_exact first_item_wf input_depth accepts judge has_huge consumed wit_array_first wit_empty_enc
   address_from_bytes addr_from_bytes addr_to_bytes addr_unsafe addr_deserialize byron_from_bytes ext_addr_enc ext_addr_dec
   third_element legacy_output real_alloc read_bounded_bytes write_bounded_bytes from_hex_with hash_from_bytes from_base32 hash_from_bech32
   from_128_xprv write_nint int_to_bytes int_cbor json_number_to_int emip3_split wit_special native_script_schema crc32 bstr
@@ -19,4 +19,15 @@ Extraction "model_c02.ml" keepN keepZ enc dec wfv wfs hex unhex refined writer_f
   PlutusList Redeemers Metadatum GeneralTransactionMetadata AuxiliaryData DataOption ScriptRef
   TransactionOutputLegacy TransactionOutputLegacyDH TransactionOutputMap TransactionOutput
   TransactionOutputs TransactionBody Vkeywitness Vkeywitnesses BootstrapWitness BootstrapWitnesses
-  TransactionWitnessSet Transaction VRFCert OperationalCert HeaderBody Header Block IntS HeaderBodyPraos HeaderPraos.
+  TransactionWitnessSet Transaction VRFCert OperationalCert HeaderBody Header Block IntS HeaderBodyPraos HeaderPraos
+  BlockPraos StakeRegistration StakeDeregistration StakeDelegation PoolParams PoolRegistration PoolRetirement
+  GenesisKeyDelegation MoveInstantaneousRewardsCert VoteDelegation StakeAndVoteDelegation
+  StakeRegistrationAndDelegation VoteRegistrationAndDelegation StakeVoteRegistrationAndDelegation
+  CommitteeHotAuth CommitteeColdResign DRepRegistration DRepDeregistration DRepUpdate
+  SingleHostAddr SingleHostName MultiHostName Ipv4 Ipv6 URL DNSName Committee
+  ParameterChangeAction HardForkInitiationAction TreasuryWithdrawalsAction NoConfidenceAction
+  UpdateCommitteeAction NewConstitutionAction MetadataList MetadataMap PlutusMap ConstrPlutusData
+  BigInt Redeemer RedeemerTag Language CostModel NetworkId Vkey AssetNameS PlutusScriptBytes
+  MIRToStakeCredentials TransactionBodies TransactionWitnessSets TransactionUnspentOutput
+  ScriptPubkey ScriptAll ScriptAny ScriptNOfK TimelockStart TimelockExpiry AssetNames GenesisHashes ScriptHashes
+  RewardAddresses TransactionMetadatumLabels BigNum VersionedBlock.
